@@ -73,7 +73,7 @@ Definition cache_fresh (tables : list (string * frame)) (st : state) : bool :=
     | None => true
     end) (s_cache st).
 
-Definition step_dom (tables : list (string * frame)) (st : state) (s : step) : bool :=
+Definition step_dom (c : cfg) (tables : list (string * frame)) (st : state) (s : step) : bool :=
   match s with
   | SReg _ h => match heap_get (s_heap st) h with
                 | Some d => negb (has_star (static_cols (d_leaf d)))
@@ -86,7 +86,7 @@ Definition step_dom (tables : list (string * frame)) (st : state) (s : step) : b
       && (let q0 := lower_query q in
           forallb (fun n => is_some (assoc n (q_ctes q0)) || is_some (cache_cols (s_cache st) n)) (refs q0))
       && match qualify (s_cache st) (lower_query q) with
-         | Some q1 => sql_side_ok st q1 && negb (has_star (static_cols (q_main q1)))
+         | Some q1 => sql_side_ok c st q1 && negb (has_star (static_cols (q_main q1)))
          | None => false
          end
   | SJoinB h1 h2 _ _ =>
@@ -102,12 +102,12 @@ Definition step_dom (tables : list (string * frame)) (st : state) (s : step) : b
 (** sqlglot replaces every Table node *equal* (name and alias) to a spliced reference, also inside the
     added view CTEs; the model ignores aliases there.  A step is alias-exact when no added CTE body
     mentions a spliced view name, so that the difference cannot matter. *)
-Definition alias_exact (st : state) (s : step) : bool :=
+Definition alias_exact (c : cfg) (st : state) (s : step) : bool :=
   match s with
-  | SSql q =>
+  | SSql q => c_user_refs_only c ||
       match qualify (s_cache st) (lower_query q) with
       | Some q1 =>
-          let vs := view_refs q1 (s_views st) in
+          let vs := view_refs (c_skip_own_ctes c) q1 (s_views st) in
           forallb (fun v => match assoc v (s_views st) with
                             | Some d => forallb (fun c => forallb (fun m => negb (mem m vs)) (names_sq (snd c))) (d_chain d)
                             | None => true end) vs
@@ -134,12 +134,12 @@ Section Check.
         let p := sobs so in
         let i := hd IErr impl in
         let e := hd IErr oracle in
-        let dom' := dom && step_dom tables st s in
+        let dom' := dom && step_dom c tables st s in
         String.append
           (String.append (b2s (iobs_eqb true i m))
             (String.append (b2s (iobs_eqb true i p))
               (String.append (b2s (obs_eqb m p))
-                (String.append (b2s dom') (String.append (b2s (iobs_eqb false e p)) (b2s (alias_exact st s)))))))
+                (String.append (b2s dom') (String.append (b2s (iobs_eqb false e p)) (b2s (alias_exact c st s)))))))
           (go tables st' sp' dom' rest (tl impl) (tl oracle))
     end.
 
